@@ -46,10 +46,11 @@ impl Monitor for C04 {
             ("last_position_reads_checked", tier.pick(100_000, 2_000_000)),
             ("crash_images_torn_inside_a_multi_frame_append", tier.pick(20_000, 250_000)),
             ("restarts_of_a_recovered_log", tier.pick(40_000, 500_000)),
+            ("crash_images_with_the_next_file_created_but_not_sized", tier.pick(1_000, 12_000)),
         ]
     }
     fn rule(&self) -> String {
-        "case = one generated history (idle/gc/delete/mixed profiles, 60..160 calls, restarts) under Always(Flush); the monitor keeps, per queue incarnation and from call arguments/results only, the highest position ever appended or truncated-to; evaluation = one successful append (returned positions strictly above the mark, automatic positions exactly mark+1) or one last_position() read; after every restart every queue gets a probe append; at sampled call boundaries the live directory (= process-crash image under a flush-per-call policy) is recovered in a side branch and every queue is probed there; for half of the appends of several frames a second image, torn between the first frame of the entry and the rest (the append is then unacknowledged and its positions free), is recovered and probed in the same way; every recovered branch is then restarted cleanly once more and last_position() re-read (the probes were acknowledged); distinct_nontrivial = distinct (queue, mark, restarts, unlinks) tuples of appends made after at least one restart or recovery".into()
+        "case = one generated history (idle/gc/delete/mixed profiles, 60..160 calls, restarts) under Always(Flush); the monitor keeps, per queue incarnation and from call arguments/results only, the highest position ever appended or truncated-to; evaluation = one successful append (returned positions strictly above the mark, automatic positions exactly mark+1) or one last_position() read; after every restart every queue gets a probe append; at sampled call boundaries the live directory (= process-crash image under a flush-per-call policy) is recovered in a side branch and every queue is probed there; for half of the appends of several frames a second image, torn between the first frame of the entry and the rest (the append is then unacknowledged and its positions free) or - when the append rolled over - between the creation of the next WAL file and its sizing, is recovered and probed in the same way; every recovered branch is then restarted cleanly once more and last_position() re-read (the probes were acknowledged); distinct_nontrivial = distinct (queue, mark, restarts, unlinks) tuples of appends made after at least one restart or recovery".into()
     }
     fn assumptions(&self) -> Vec<String> {
         vec!["crash leg: the directory content at a call boundary under Always(Flush) is the process-crash image (all completed calls flushed)".into()]
@@ -223,7 +224,7 @@ impl Monitor for C04 {
             // crash branches: at the call boundary and - for an append of several frames - between
             // the write of its first frame and the rest (the append is then not acknowledged)
             let torn = match (&inc_before, &st.outcome) {
-                (Some(before), Outcome::Appended { last: Some(_), .. }) if rng.chance(1, 2) => torn_image(&dir, &st.events).map(|img| (img, before.clone())),
+                (Some(before), Outcome::Appended { last: Some(_), .. }) if rng.chance(1, 2) => torn_image(&dir, &st.events, rng.chance(1, 2)).map(|img| (img, before.clone())),
                 _ => None,
             };
             let boundary = if !is_restart && rng.chance(1, 8) { Some((Image::from_dir(&dir), inc.clone())) } else { None };
@@ -234,6 +235,9 @@ impl Monitor for C04 {
                 mat.touched_by(&evs);
                 if !which.is_empty() {
                     acc.count("crash_images_torn_inside_a_multi_frame_append");
+                    if img.files.values().any(|f| f.is_empty()) {
+                        acc.count("crash_images_with_the_next_file_created_but_not_sized");
+                    }
                 }
                 // restore the shim's root for the main line afterwards
                 match (&r, sut) {
@@ -326,13 +330,35 @@ impl Monitor for C04 {
     }
 }
 
-/// The directory as a crash between the write of the first frame of the entry written by the
-/// traced call and the rest of it would leave it: the bytes of the call behind that frame are
+/// The directory as a crash inside the traced append would leave it.  First shape: between the
+/// write of the first frame of its entry and the rest: the bytes of the call behind that frame are
 /// zero again (WAL files are created zero-filled and never rewritten).  None when the call did
 /// not write an entry of several frames.
-fn torn_image(dir: &std::path::Path, events: &[crate::shim::Ev]) -> Option<Image> {
+fn torn_image(dir: &std::path::Path, events: &[crate::shim::Ev], prefer_unsized: bool) -> Option<Image> {
     use crate::layout::parse_frames;
     use crate::shim::Ev;
+    // second shape: the call rolled over and the crash falls between the creation of the next
+    // WAL file and its sizing - the file exists, empty, and nothing written after its creation
+    // has happened
+    if prefer_unsized {
+        let created = events.iter().position(|e| matches!(e, Ev::Open { name, flags, err: 0, .. } if name.starts_with("wal-") && flags & (libc::O_CREAT as u32) != 0));
+        if let Some(ci) = created {
+            let Ev::Open { name: newfile, .. } = &events[ci] else { return None };
+            let mut img = Image::from_dir(dir);
+            for e in &events[ci + 1..] {
+                if let Ev::Write { name, off, data, err: 0, .. } = e {
+                    if let Some(f) = img.files.get_mut(name) {
+                        let (a, b) = (*off as usize, *off as usize + data.len());
+                        if b <= f.len() {
+                            f[a..b].iter_mut().for_each(|x| *x = 0);
+                        }
+                    }
+                }
+            }
+            img.files.insert(newfile.clone(), Vec::new());
+            return Some(img);
+        }
+    }
     let writes: Vec<(&String, usize, usize)> = events
         .iter()
         .filter_map(|e| match e {
